@@ -3020,20 +3020,29 @@ static Type *struct_union_decl(Token **rest, Token *tok) {
 
   tok = skip(tok, "{");
 
+  // [https://www.sigbus.info/n1570#6.2.1p7] The scope of a tag begins
+  // just after its appearance in the type specifier that declares it,
+  // so a mention of the tag in the member list (struct T { struct T
+  // *next; }) refers to this type, not to a T of an enclosing scope.
+  // Register an incomplete type now unless the current scope has one
+  // (a forward declaration or a redefinition); it is overwritten below.
+  Type *ty2 = NULL;
+  if (tag) {
+    ty2 = hashmap_get2(&scope->tags, tag->loc, tag->len);
+    if (!ty2) {
+      ty2 = struct_type();
+      ty2->size = -1;
+      push_tag_scope(tag, ty2);
+    }
+  }
+
   // Construct a struct object.
   struct_members(&tok, tok, ty);
   *rest = attribute_list(tok, ty);
 
-  if (tag) {
-    // If this is a redefinition, overwrite a previous type.
-    // Otherwise, register the struct type.
-    Type *ty2 = hashmap_get2(&scope->tags, tag->loc, tag->len);
-    if (ty2) {
-      *ty2 = *ty;
-      return ty2;
-    }
-
-    push_tag_scope(tag, ty);
+  if (ty2) {
+    *ty2 = *ty;
+    return ty2;
   }
 
   return ty;
